@@ -6,7 +6,7 @@
    therefore the scaling theorems carry the suffix _partial. *)
 From Coq Require Import ZArith QArith Qabs List Bool.
 From CV Require Import Base.Val Base.Bytes Base.Bits Base.Tys Gen.Tables Model.Codec Model.Views
-  Proofs.Codec_proofs Proofs.Views_proofs Gen.Src Proofs.Src_eq_views.
+  Proofs.Codec_proofs Proofs.Views_proofs Gen.SrcC20 Proofs.Src_eq_c20.
 Import ListNotations.
 Open Scope Z_scope.
 
@@ -220,7 +220,7 @@ Example C20_nv_cell :
 Proof. vm_compute. repeat split; reflexivity. Qed.
 
 (* Tie to the source text: ODVariable.decode_bits / encode_bits as translated from the CURRENT source by
-   tools/py2coq.py (Gen/Src.v, regenerated on every run) are the model's functions on every non-empty
+   tools/py2coq.py (Gen/SrcC20.v, regenerated on every run) are the model's functions on every non-empty
    list of non-negative bit numbers (the bit-definition lookup by name is resolved before, see resolve). *)
 Theorem C20_source_decode_bits_is_model : forall value bits, bits <> [] -> Forall (fun b => 0 <= b) bits ->
   decode_bits_list value bits = Ok (src_decode_bits value bits).
